@@ -13,6 +13,8 @@
   tools/seedeval.py benign <agent-out-dir> <i> <name> PROP...
       A behaviour-preserving change (ok<i>.diff): the repository suite must pass with it and the named checks must stay
       silent (exit 0) against a worktree with it applied; stored under /verif/benign/<name>/.
+  tools/seedeval.py rebenign <name>
+      Runs the current checks again against the stored behaviour-preserving change benign/<name>/ (no suite run).
   tools/seedeval.py table        regenerates seeded/README.md from the meta.json files
 
 Nothing is ever applied to /repo's own working tree by this script.
@@ -225,6 +227,44 @@ def benign(outdir, i, name, props, tier="quick"):
     return 0
 
 
+def rebenign(name, tier="quick"):
+    """Runs the current checks again against a stored behaviour-preserving change (the repository suite was verified when it was stored)."""
+    d = os.path.join(BENIGN, name)
+    mp = os.path.join(d, "meta.json")
+    meta = json.load(open(mp))
+    patch = os.path.join(d, "patch.diff")
+    tag = "%s_%d" % (name, os.getpid())
+    wt = "/tmp/wt/ben_" + tag
+    snap = "/tmp/vsnap_" + tag
+    head = sh(["git", "-C", "/repo", "rev-parse", "HEAD"]).stdout.strip()
+    r = sh(["git", "-C", "/repo", "worktree", "add", "--detach", wt, head])
+    assert r.returncode == 0, r.stdout
+    try:
+        r = sh(["git", "-C", wt, "apply", patch])
+        if r.returncode != 0:
+            print(name, "no longer applies to /repo HEAD"); return 1
+        os.makedirs(snap)
+        sh("git -C %s archive HEAD | tar -x -C %s" % (VERIF, snap))
+        vhead = sh(["git", "-C", VERIF, "rev-parse", "--short", "HEAD"]).stdout.strip()
+        for prop in meta["properties"]:
+            env = dict(os.environ, XTL_REPO=wt, VERIF_BUILD=snap + "/build")
+            t0 = time.time()
+            r = subprocess.run([snap + "/check", prop, "--tier", tier], cwd=snap, env=env, stdout=subprocess.PIPE, stderr=subprocess.PIPE, text=True, errors="replace")
+            viol = [l.replace(snap, "/verif") for l in r.stdout.splitlines() if l.startswith("VIOLATION") or l.startswith("  signature=") or l.startswith("MACHINERY")]
+            rec = dict(check="./check %s --tier %s" % (prop, tier), verif_commit=vhead, exit=r.returncode, silent=(r.returncode == 0), output=viol[:8], wall_s=round(time.time() - t0, 1))
+            if r.returncode == 2:
+                rec["machinery_failure"] = r.stdout[-400:] + r.stderr[-1200:]
+            meta["runs"] = [x for x in meta["runs"] if not (x["check"] == rec["check"] and x["verif_commit"] == vhead)] + [rec]
+            print(name, prop, "exit", r.returncode, "silent" if rec["silent"] else "ALARM", "%.0fs" % rec["wall_s"], flush=True)
+            for l in viol[:4]:
+                print("   ", l[:300])
+    finally:
+        sh(["git", "-C", "/repo", "worktree", "remove", "--force", wt])
+        shutil.rmtree(snap, ignore_errors=True)
+    json.dump(meta, open(mp, "w"), indent=1)
+    return 0
+
+
 def table():
     rows = []
     for mp in sorted(glob.glob(os.path.join(SEEDED, "*", "meta.json"))):
@@ -291,6 +331,8 @@ def main():
         return detect(rest[0], rest[1:], tier, keep, at)
     if a[0] == "benign":
         return benign(a[1], a[2], a[3], a[4:])
+    if a[0] == "rebenign":
+        return rebenign(a[1])
     if a[0] == "table":
         return table()
     print(__doc__); return 2
